@@ -245,6 +245,25 @@ def run(prog, rep, tier, repo):
         else:
             rep.undecided('guard-use', key, detail, site_of(f.body), proof=False)
 
+    # logit rejects what lies outside [0, 1] -- decided on witnesses through helpers and shadowed copies of the argument: a range test
+    # applied to a clipped copy lets every argument through
+    from ..precond import check_rejects, check_returns, NC
+    ncx_ = NC(prog)
+    check_rejects(prog, rep, 'rejects', FS + 'logit', [{'p': -2.5}, {'p': -1.0}, {'p': 3.0}, {'p': 1.0000000000000002}, {'p': -5e-324}, {'p': 1e300}],
+                  'but the logit must reject arguments outside [0, 1]', ncx=ncx_)
+    rep.floor('rejects', 1, 'logit')
+
+    def dom_(env, at):
+        by = {at[n][1][2]: v for n, v in env.items() if tag(at[n][1]) == 'arg'}
+        if 'p' in by:
+            return 0. <= by['p'] <= 1.
+        if 'x' in by:
+            return by['x'] + by.get('alpha', 0.) > 0.      # Box-Cox: x + shift > 0
+        return True
+    check_returns(prog, rep, 'total', [FS + n_ for n_ in ('logit', 'logistic', 'boxcox', 'boxcox_shifted') if FS + n_ in prog.pdb.bodies], domain=dom_, ncx=ncx_,
+                  what='inside its stated domain')
+    rep.floor('total', 4, 'logit, logistic, boxcox, boxcox_shifted')
+
     # ------------------------------------------------------------------ D2 / D4 softmax
     eng = ElemEngine(prog)
     k = FS + 'softmax'
